@@ -56,21 +56,43 @@ class B:
         self.bounds = [(bd, b) for bd, b in self.bounds if slots(bd) <= ok and slots(b) <= ok]
         self.items = [i for i in self.items if slots(i) <= ok]
         self.place = {i: r.choice(['inline', 'where']) for i in range(len(self.bounds))}
+        # decoys: names spelled like a parameter in positions that are never an occurrence of one
+        # (after a qualified self; a multi-segment expression path headed by a const's name;
+        # a later path segment; a field).  {D0} is spelled like a type parameter, {E0} like a const
+        self.decoys = r.sample([
+            'fn dq() -> usize {{ <u8 as {D0}>::K + <{T0}>::{E0} }}',
+            'fn dn() -> usize {{ {E0}::A as usize + {E0}::len() }}',
+            'type Dq = <{T0}>::{D0};',
+            'fn dm(x: m::{D0}) -> m::{D0} {{ x.{D0} }}',
+            'fn dt() -> usize {{ <{T0} as {D0}<{T1}>>::K }}',
+            'fn dx() -> usize {{ <{T0}>::{D0}::<{T1}>() }}',
+        ], r.choice([0, 0, 1, 2]))
+        self.decoys = [i for i in self.decoys if slots(i) - {'D0', 'E0'} <= ok]
+        self.fresh = False
+        self.decoy = None
         self.spell(r)
 
     def spell(self, r, fixed=None):
         lts = r.sample(LT, 2); tys = r.sample(TY, 4); cts = r.sample(CT, 2)
         self.names = {'L0': lts[0], 'L1': lts[1], 'T0': tys[0], 'T1': tys[1], 'T2': tys[2], 'T3': tys[3], 'N0': cts[0], 'N1': cts[1]}
+        if getattr(self, 'decoy', None) is None:
+            # fixed strings, kept by the twin: a decoy is not an occurrence, so it is not renamed
+            self.decoy = {'D0': self.names[r.choice(['T0', 'T1'])], 'E0': self.names[r.choice(['N0', 'N1'])]}
         self.order = list(self.names)
         r.shuffle(self.order)
         self.order = [s for s in self.order if s[0] == 'L'] + [s for s in self.order if s[0] != 'L']
 
     def used_slots(self):
-        text = self.header[0] + self.header[1] + ''.join(a + b for a, b in self.bounds) + ''.join(self.items)
+        text = self.header[0] + self.header[1] + ''.join(a + b for a, b in self.bounds) + ''.join(self.items) + ''.join(self.decoys)
         return [s for s in self.order if '{%s}' % s in text]
 
+    def decoy_names(self):
+        if self.fresh:
+            return {'D0': 'Zq0', 'E0': 'Zq1'}
+        return self.decoy
+
     def fmt(self, s):
-        return s.format(**self.names)
+        return s.format(**self.names, **self.decoy_names())
 
     def text(self):
         gens = []
@@ -86,7 +108,7 @@ class B:
         preds = [self.fmt('%s: %s' % (bd, b)) for i, (bd, b) in enumerate(self.bounds)
                  if not (bd.strip('{}') in self.names and bd == '{%s}' % bd.strip('{}') and bd[1] == 'T' and self.place[i] == 'inline')]
         return 'impl<%s> %s for %s%s { %s }' % (', '.join(gens), self.fmt(self.header[0]), self.fmt(self.header[1]),
-                                                (' where ' + ', '.join(preds)) if preds else '', ' '.join(self.fmt(i) for i in self.items))
+                                                (' where ' + ', '.join(preds)) if preds else '', ' '.join(self.fmt(i) for i in self.items + self.decoys))
 
 
 def show(t):
@@ -111,6 +133,8 @@ CORPUS = [
     'impl<_ŠČ1, _ŠČ0: D<G = _ŠČ1>> K for (_ŠČ1, _ŠČ0) { fn f() -> _ŠČ0 { _ŠČ1::mk() } }',
     "impl<'T, T: D<G = GA>> K<'T> for &'T T { fn f(x: &'T T) -> T { T::mk() } }",
     'impl<A, B, C, D0, E, F, G, H, I, J, K1, L: Dx<G = GA>> K for (A, B, C, D0, E, F, G, H, I, J, K1, L) { type Out = (L, K1, J); }',
+    # fixed finding F32: names spelled like a parameter after a qualified self / heading a multi-segment expression path
+    'impl<T: D<G = GA> + Tr, const N: usize> K<W<{ N }>> for T { fn f() -> usize { <T>::N + N::A as usize + N } type Q = <T>::T; fn g() -> usize { <u8 as T>::N } }',
 ]
 
 
@@ -134,8 +158,14 @@ def run(tier, seed, replay=None):
             twin = copy.copy(b)
             twin.spell(rng)
             reqs.append('canon\t%s %s' % (b.text(), twin.text())); meta.append('twin')
+            if b.decoys:
+                # the same two blocks with the decoys spelled with names no parameter has
+                fb, ft = copy.copy(b), copy.copy(twin)
+                fb.fresh = ft.fresh = True
+                reqs.append('canon\t%s %s' % (fb.text(), ft.text()))
+                meta.append(('fresh', len(reqs) - 2, [b.decoy_names(), twin.decoy_names()]))
     resp = cm.run_hook(reqs, exe_hook)
-    stats = dict(unsupported=0, crash=0, blocks=0, twins=0, params=0, payload_only_params=0)
+    stats = dict(unsupported=0, crash=0, blocks=0, twins=0, params=0, payload_only_params=0, decoy_pairs=0)
     mreq, midx = [], []
     parsed = {}
     for i, r in enumerate(resp):
@@ -181,6 +211,16 @@ def run(tier, seed, replay=None):
             cans.append(can)
             if any(a != b for a, b in zip(names, onames)):
                 nontrivial.add(reqs[i] + '#%d' % j)
+        if isinstance(meta[i], tuple) and meta[i][0] == 'fresh' and meta[i][1] in parsed and len(cans) == 2:
+            # capture-freedom as a metamorphic relation: spelling a non-occurrence like a parameter
+            # changes nothing but that spelling
+            other = [pair[2][1] for pair in parsed[meta[i][1]][2]]
+            for j, (cf, co, dn) in enumerate(zip(cans, other, meta[i][2])):
+                stats['decoy_pairs'] += 1
+                want = show(cf).replace('"Zq0"', '"%s"' % dn['D0']).replace('"Zq1"', '"%s"' % dn['E0'])
+                if want != show(co):
+                    violations.append(dict(kind='property', request=reqs[meta[i][1]], block=j, impl=show(co)[:2500], spec=want[:2500],
+                                           oracle='a name that is not an occurrence of a parameter (after a qualified self, head of a multi-segment expression path spelled like a const, later segment, field) but shares its spelling changes the canonical block: it differs from the canonical block of the same input with that name spelled freshly'))
         if meta[i] == 'twin' and len(cans) == 2:
             stats['twins'] += 1
             a, b = cans
@@ -193,5 +233,5 @@ def run(tier, seed, replay=None):
         i = next(i for i, r in enumerate(resp) if r.startswith('(Crash'))
         violations.append(dict(kind='crash', request=reqs[i], impl=resp[i], oracle='canonicalisation must not panic/abort on fragment inputs'))
     return finish('C13', tier, seed, gate, reqs, stats, nontrivial, violations, set(),
-                  rule='corpus + random blocks over header templates (tuples, references with lifetimes, arrays/const generics, const parameter as generic argument, fn pointers, trait objects with bindings, projections) x bounds (payload-only parameters, derived bounded types, lifetimes in trait arguments) x items (T::Assoc, T::f(), turbofish, GAT projection, <T as Tr>::K, const expressions, a path spelled like a parameter in a non-parameter position) x adversarial spellings (a parameter named like a trait, a lifetime and a type sharing an identifier, parameters literally named _ŠČ1/_ŠČ0, 12 parameters) x declaration order x inline/where placement; each request carries an alpha-renamed, re-ordered twin; non-trivial = distinct block with a renamed parameter',
+                  rule='corpus + random blocks over header templates (tuples, references with lifetimes, arrays/const generics, const parameter as generic argument, fn pointers, trait objects with bindings, projections) x bounds (payload-only parameters, derived bounded types, lifetimes in trait arguments) x items (T::Assoc, T::f(), turbofish, GAT projection, <T as Tr>::K, const expressions, a path spelled like a parameter in a non-parameter position; decoys: a name spelled like a parameter after a qualified self, heading a multi-segment expression path, as a later segment or a field, judged by the metamorphic relation: spelling it freshly changes only that spelling) x adversarial spellings (a parameter named like a trait, a lifetime and a type sharing an identifier, parameters literally named _ŠČ1/_ŠČ0, 12 parameters) x declaration order x inline/where placement; each request carries an alpha-renamed, re-ordered twin; non-trivial = distinct block with a renamed parameter',
                   samples=[dict(request=reqs[i][:400]) for i in range(0, len(reqs), max(1, len(reqs) // 5))][:5])
